@@ -217,6 +217,7 @@ void tune_case(vt::Rng& rng, int64_t icase)
     std::mutex          mutex;
     std::vector<call_t> calls;
     const auto          salt = rng.next() % 97;
+    const auto          centre_min = rng.coin(1, 3);
 
     const auto callback = [&](const indices_t& train, const indices_t& valid, tensor1d_cmap_t params, const std::any&, const logger_t&)
     {
@@ -239,7 +240,14 @@ void tune_case(vt::Rng& rng, int64_t icase)
         {
             h = (h * 131 + static_cast<int64_t>(std::llround(p * 1000.0))) % 1009;
         }
-        const auto base = (h % 3);                      // few distinct levels: ties between trials
+        // few distinct levels: ties between trials; sometimes the strict minimum sits at the grid centre - the first point a tuner tries
+        bool at_centre = centre_min && !call.params.empty();
+        for (size_t a = 0; a < call.params.size() && at_centre; ++a)
+        {
+            const auto& values = spaces[a].values();
+            at_centre          = call.params[a] == values(values.size() / 2);
+        }
+        const auto base = at_centre ? 0 : (centre_min ? 1 + (h % 3) : (h % 3));
         const auto m = valid.size();
         tensor2d_t tr(2, train.size()), vd(2, m);
         call.nvalid = m;
